@@ -55,6 +55,12 @@ def frame_consistency(index: RepoIndex, rep, rule: str, geo: Geometry, pipe: Pip
     mul_returns_operand(index, rep, rule)
     gi = GeoInterp(geo)
     src_grid, area_e, rot_e = pipe.decompose_grid()
+    if getattr(pipe, 'state_grid_shortcut', None):
+        rep.violation(rule, OBS, 'from_visibility', pipe.func.node.lineno,
+                      f'S.grid if {pipe.state_grid_shortcut}',
+                      f'when `{pipe.state_grid_shortcut}` the view is not a slice but the '
+                      f'state\'s own grid turned by the heading (for FORWARD the very same '
+                      f'rows): hiding a cell of the observation hides it in the world')
     fn = pipe.func
     rep.check(src(src_grid) == 'S.grid', rule, OBS, 'from_visibility', fn.node.lineno,
               src(pipe.grid_def), f'the slice is taken from `{src(src_grid)}`, not from the '
